@@ -65,10 +65,60 @@ def run(ctx: Ctx):
     ctx.guarded(start_free, ctx)
     res.rule("MUST-SOLVE", "active_set_nnls (iteration budget >= 1): every path to a return passes through a solve of the passive-set system -- no shortcut returns a warm start or an intermediate iterate that was never made stationary on its positive entries", floor=1)
     ctx.guarded(must_solve, ctx)
+    res.rule("COMPLEMENT-IN-SYNC", "active_set_nnls keeps the passive set and the active set as two boolean masks that are complements of each other (x > 0 / x <= 0; True / False stored at the same index): every statement block that writes one of them writes the other, so the optimality test over the active set always looks at exactly the coordinates that are not passive", floor=2)
+    ctx.guarded(complement_in_sync, ctx)
     from .affine import block_independent
 
     res.rule("BLOCK-INDEPENDENT", "affine-form dependence analysis of the HALS row update: after cancellation the new row k does not depend on the old row k (coefficient 0 as a rational function of UtU[k, k] and the coefficients), for every combination of the optional sparsity / ridge coefficients -- the exact coordinate minimiser is a function of the other rows only", floor=4)
     ctx.guarded(block_independent, ctx, "BLOCK-INDEPENDENT", "tensorly.solvers.nnls.hals_nnls", "V", ["sparsity_coefficient is not None", "ridge_coefficient is not None"])
+
+
+def complement_in_sync(ctx: Ctx):
+    import ast as _ast
+
+    from ..common import src as _src
+    from ..inline import with_inlined
+    from ..model import AnalysisError as _AE
+
+    f = with_inlined(ctx.repo, ctx.repo.func("tensorly.solvers.nnls.active_set_nnls"))
+    # the pair: two locals assigned complementary comparisons of the same operand in one block
+    pair = None
+    blocks = []
+    for n in _ast.walk(f.node):
+        for fld in ("body", "orelse", "finalbody"):
+            b = getattr(n, fld, None)
+            if isinstance(b, list) and b and isinstance(b[0], _ast.stmt):
+                blocks.append(b)
+        if isinstance(n, _ast.ExceptHandler):
+            blocks.append(n.body)
+    comp = {_ast.Gt: _ast.LtE, _ast.LtE: _ast.Gt, _ast.Lt: _ast.GtE, _ast.GtE: _ast.Lt}
+    for b in blocks:
+        cmps = [(st.targets[0].id, st.value) for st in b if isinstance(st, _ast.Assign) and len(st.targets) == 1 and isinstance(st.targets[0], _ast.Name) and isinstance(st.value, _ast.Compare) and len(st.value.ops) == 1]
+        for i, (n1, c1) in enumerate(cmps):
+            for n2, c2 in cmps[i + 1 :]:
+                if n1 != n2 and comp.get(type(c1.ops[0])) is type(c2.ops[0]) and _ast.dump(c1.left) == _ast.dump(c2.left) and _ast.dump(c1.comparators[0]) == _ast.dump(c2.comparators[0]):
+                    pair = (n1, n2)
+    if pair is None:
+        raise _AE("COMPLEMENT-IN-SYNC: active_set_nnls no longer initialises two complementary masks (x > 0 / x <= 0); cannot decide")
+    a, b_ = pair
+
+    def writes(block, name):
+        return [st for st in block if isinstance(st, (_ast.Assign, _ast.AugAssign)) and any(isinstance(t, _ast.Name) and t.id == name for t in (st.targets if isinstance(st, _ast.Assign) else [st.target]))]
+
+    n = 0
+    for blk in blocks:
+        wa, wb = writes(blk, a), writes(blk, b_)
+        if not wa and not wb:
+            continue
+        n += 1
+        ok = bool(wa) and bool(wb)
+        ctx.res.instance("COMPLEMENT-IN-SYNC", f"{f.qname}: block at line {blk[0].lineno}", sample={"writes": {a: len(wa), b_: len(wb)}, "ok": ok})
+        if not ok:
+            one, other = (a, b_) if wa else (b_, a)
+            st = (wa or wb)[0]
+            ctx.finding("COMPLEMENT-IN-SYNC", f, st, f"active_set_nnls: `{_src(st)[:70]}` updates `{one}` but the block does not update its complement `{other}`: from here on the two masks disagree, and the test that reads `{other}` (optimality of the coordinates at zero / the restricted solve) looks at an outdated set -- a coordinate expelled in this step is never checked for a positive dual, so the solver can stop at a point that is not KKT-optimal", construct=f"active_set_nnls: {one} written without {other}")
+    if n == 0:
+        raise _AE("COMPLEMENT-IN-SYNC: no block writes the masks; cannot decide")
 
 
 def unit_consistent(ctx: Ctx):
@@ -130,7 +180,9 @@ def must_solve(ctx: Ctx):
     from ..explore import Explorer
     from ..model import AnalysisError as _AE, own_scope_nodes
 
-    f = ctx.repo.func("tensorly.solvers.nnls.active_set_nnls")
+    from ..inline import with_inlined
+
+    f = with_inlined(ctx.repo, ctx.repo.func("tensorly.solvers.nnls.active_set_nnls"))  # the solve may live in a module helper
     loops = [n for n in f.node.body if isinstance(n, _ast.For)]
     if len(loops) != 1:
         raise _AE("MUST-SOLVE: active_set_nnls no longer has exactly one top-level iteration loop; cannot decide")
